@@ -6,6 +6,7 @@
 package learn
 
 //@ global ErrSealedTooShort != nil
+//@ global base64.StdEncoding != nil
 
 // hybridDecrypt takes the envelope apart: version byte, two bytes big-endian length of the RSA block, the RSA
 // block, then the AES-GCM block. For EVERY byte string it either reports ErrSealedTooShort or hands exactly those
@@ -37,4 +38,32 @@ package learn
 //@   ensures[C20 envelope-header] err == nil && n < 65536 ==> len(ct) >= 3 + n && int(ct[0]) == 1 && int(ct[1]) * 256 + int(ct[2]) == n
 //@   ensures[C20 same-key-for-both-blocks] err == nil ==> base(callarg("NewCipher", 1, 0)) == base(callarg("EncryptOAEP", 1, 3)) && len(callarg("EncryptOAEP", 1, 3)) == 32 && callarg("EncryptOAEP", 1, 2).(*rsa.PublicKey) == publicKey
 //@   ensures[C20 plaintext-sealed] err == nil ==> ncalls("(AEAD).Seal") == 1 && base(callarg("(AEAD).Seal", 1, 3)) == base(plaintext) && len(callarg("(AEAD).Seal", 1, 3)) == len(plaintext)
+//@   modifies class crypto.
+
+// ---- Encrypt / Decrypt: what is sealed is the given text itself, what is returned is what was opened ----
+
+//@ func parsePublicKey(key string) (k *rsa.PublicKey, err error)
+//@   noverify base64 + PKCS1 parsing (library behaviour)
+//@   ensures err == nil ==> k != nil
+//@   modifies nothing
+
+//@ func parsePrivateKey(key string) (k *rsa.PrivateKey, err error)
+//@   noverify base64 + PKCS1 parsing (library behaviour)
+//@   ensures err == nil ==> k != nil
+//@   modifies nothing
+
+//@ func Encrypt(publicKeyB64 string, plaintext string) (ct string, err error)
+//@   props C20
+//@   ensures[C20 bad-key] callres("parsePublicKey", 1, 1) != nil ==> err != nil && ct == "" && ncalls("hybridEncrypt") == 0
+//@   ensures[C20 seals-the-text-itself] ncalls("hybridEncrypt") == 1 ==> callarg("hybridEncrypt", 1, 0).(*rsa.PublicKey) == callres("parsePublicKey", 1, 0).(*rsa.PublicKey) && len(callarg("hybridEncrypt", 1, 1)) == len(plaintext) && off(callarg("hybridEncrypt", 1, 1)) == 0 && contents(callarg("hybridEncrypt", 1, 1)) == bytes(plaintext)
+//@   ensures[C20 envelope-encoded] err == nil ==> ncalls("hybridEncrypt") == 1 && callres("hybridEncrypt", 1, 1) == nil && ncalls("(*Encoding).EncodeToString") == 1 && ct == callres("(*Encoding).EncodeToString", 1, 0).(string) && base(callarg("(*Encoding).EncodeToString", 1, 1)) == base(callres("hybridEncrypt", 1, 0)) && len(callarg("(*Encoding).EncodeToString", 1, 1)) == len(callres("hybridEncrypt", 1, 0))
+//@   ensures[C20 no-text-on-error] err != nil ==> ct == ""
+//@   modifies class crypto.
+
+//@ func Decrypt(privateKeyB64 string, ciphertext string) (pt string, err error)
+//@   props C20
+//@   ensures[C20 decodes-the-input] ncalls("(*Encoding).DecodeString") == 1 && callarg("(*Encoding).DecodeString", 1, 1).(string) == ciphertext
+//@   ensures[C20 failures-reported] callres("(*Encoding).DecodeString", 1, 1) != nil || (ncalls("parsePrivateKey") == 1 && callres("parsePrivateKey", 1, 1) != nil) || (ncalls("hybridDecrypt") == 1 && callres("hybridDecrypt", 1, 1) != nil) ==> err != nil && pt == ""
+//@   ensures[C20 opens-the-decoded-envelope] ncalls("hybridDecrypt") == 1 ==> base(callarg("hybridDecrypt", 1, 1)) == base(callres("(*Encoding).DecodeString", 1, 0)) && len(callarg("hybridDecrypt", 1, 1)) == len(callres("(*Encoding).DecodeString", 1, 0)) && callarg("hybridDecrypt", 1, 0).(*rsa.PrivateKey) == callres("parsePrivateKey", 1, 0).(*rsa.PrivateKey)
+//@   ensures[C20 returns-what-was-opened] err == nil ==> ncalls("hybridDecrypt") == 1 && pt == string(callres("hybridDecrypt", 1, 0))
 //@   modifies class crypto.
